@@ -45,21 +45,23 @@ PROPS = {
         unit("c04", "route", ROUTE_COMMON + ["route/c04_test.go"], "^TestVerifC04"),
         route_sched("c04-sched", "^TestVerifC04Sched", shards={"quick": 1, "thorough": 8}),
         unit("c04-listeners", ".", MAIN_COMMON + ["main/c19_test.go", "main/c16_test.go", "main/c18_sig_test.go", "main/c04_listener_test.go"], "^TestVerifC04Listeners", engines=["vhook"], rewrite=[{"files": ["transport/transport.go"], "opts": ["-sel", "net.Dialer=vhook.Dialer"]}]),
-    ], layers={"quick": ["c04-add", "c04-weightcmd", "c04-sched", "c04-listeners"], "thorough": ["c04-add", "c04-weightcmd", "c04-sched", "c04-listeners"]}),
+        unit("c04-admin", "admin/api", ["adminapi/c05_test.go", "adminapi/c02_read_test.go"], "^TestVerifC02AdminRead", sched_env={"VERIF_ADMIN_PROP": "C04"}),
+    ], layers={"quick": ["c04-add", "c04-weightcmd", "c04-sched", "c04-listeners", "c04-admin"], "thorough": ["c04-add", "c04-weightcmd", "c04-sched", "c04-listeners", "c04-admin"]}),
     "C05": dict(level="model_checking", engine="xstate",
         technique="explicit-state BFS over route-command scripts with a reference interpreter; each transition rebuilds the real table with NewTable and compares",
         level_text="All reachable reference states of a 19-command alphabet (add/del/weight in every documented form, hosts in mixed case, tags, opts, weights) are explored breadth-first (quick: depth 5 with state de-duplication; thorough: until the frontier empties); every transition is executed on the real parser + table and compared field by field with an independent interpreter; every state round-trips through Parse(Table.String()).",
         level_note="The reference interpreter is the trusted statement of the documented semantics. State merging is by the canonical reference table; it is sound because each transition checks that the real table equals that canonical form, so merged states have equal real tables. Effective-weight round trip tolerance 5e-4.",
         units=[
         unit("c05", "route", ROUTE_COMMON + ["route/c05_test.go"], "^TestVerifC05"),
-        unit("c05-api", "admin/api", ["adminapi/c05_test.go"], "^TestVerifC05API"),
+        unit("c05-api", "admin/api", ["adminapi/c05_test.go", "adminapi/c02_read_test.go"], "^TestVerifC05API"),
     ], layers={"quick": ["c05-commands", "c05-api"], "thorough": ["c05-commands", "c05-api"]}),
     "C06": dict(level="model_checking", engine="vsched",
         technique="stateless model checking: controlled scheduler + preemption-bounded DFS over the real lookup path; separate free-running -race pass",
         level_text="Every interleaving (up to the preemption bound reported in the evidence; statement-level scheduling points in picker.go, glob_cache.go, target.go, table.go) of 2-3 concurrent lookups over redirect routes, equal and weighted round-robin routes, a glob cache at its fill and eviction boundaries, and lookups concurrent with SetTable, is executed on the real code and checked: own redirect Location, exact round-robin shares, cache within size and never failing, decisions independent of other requests. The same bodies run free under the race detector.",
         level_note="Sequentially consistent interleavings at statement granularity of the four rewritten files; weaker memory orderings and races inside other packages are only covered by the -race pass (a monitor over a sample of schedules).",
-        units=[route_sched("c06", "^TestVerifC06", shards={"quick": 1, "thorough": 16})],
-        layers={"quick": ["c06-sched"], "thorough": ["c06-sched"]}),
+        units=[route_sched("c06", "^TestVerifC06", shards={"quick": 1, "thorough": 16}),
+               unit("c06-admin", "admin/api", ["adminapi/c05_test.go", "adminapi/c02_read_test.go"], "^TestVerifC02AdminRead", sched_env={"VERIF_ADMIN_PROP": "C06"})],
+        layers={"quick": ["c06-sched", "c06-admin"], "thorough": ["c06-sched", "c06-admin"]}),
     "C02": dict(level="model_checking", engine="vsched",
         technique="stateless model checking of SetTable vs lookups (controlled scheduler, preemption-bounded DFS) + explicit-state BFS of update histories through the real watchBackend + bounded-exhaustive config texts",
         level_text="(1) every interleaving up to the reported preemption bound of a writer installing tables with 1-2 readers doing paired lookups, on the real atomic table; (2) every history of valid/invalid service and manual configuration updates up to the reported depth through the real main.watchBackend loop against a reference model of last-good-table; (3) every configuration text of a bounded grammar incl. non-finite, huge and denormal weights, bad globs and URLs through NewTable/NewTableCustom + lookups: error or table, never a panic.",
@@ -67,8 +69,9 @@ PROPS = {
         units=[route_sched("c02-sched", "^TestVerifC02Sched", shards={"quick": 1, "thorough": 16}),
                unit("c02-text", "route", ROUTE_COMMON + ["route/c02_text_test.go"], "^TestVerifC02Text"),
                unit("c02-hist", ".", MAIN_COMMON + ["main/c02_hist_test.go"], "^TestVerifC02Hist"),
-               unit("c02-custom", "registry/custom", ["custom/c02_test.go"], "^TestVerifC02Custom")],
-        layers={"quick": ["c02-sched", "c02-text", "c02-hist", "c02-custom"], "thorough": ["c02-sched", "c02-text", "c02-hist", "c02-custom"]}),
+               unit("c02-custom", "registry/custom", ["custom/c02_test.go"], "^TestVerifC02Custom"),
+               unit("c02-admin", "admin/api", ["adminapi/c05_test.go", "adminapi/c02_read_test.go"], "^TestVerifC02AdminRead")],
+        layers={"quick": ["c02-sched", "c02-text", "c02-hist", "c02-custom", "c02-admin"], "thorough": ["c02-sched", "c02-text", "c02-hist", "c02-custom", "c02-admin"]}),
     "C12": dict(level="exploration", engine="benum",
         technique="bounded-exhaustive enumeration of rule strings x peers x X-Forwarded-For chains x credentials against a netip reference; end-to-end through HTTPProxy and the TCP proxies",
         level_text="Every allow/deny list of up to 2 items from a 13-item alphabet (well-formed and malformed), 10 peer addresses (v4, v6, zone-scoped, v4-mapped), 7 X-Forwarded-For shapes, through the real option parser and AccessDeniedHTTP/TCP; auth scheme x credentials matrix; end-to-end status codes and upstream hit counters through HTTPProxy.ServeHTTP and the tcp proxies.",
